@@ -143,6 +143,32 @@ impl CanonicalAssets {
         }
     }
 
+    /// Entry-wise sum with zero entries removed, or `None` when an amount leaves
+    /// the i128 range.
+    pub fn checked_add(self, other: Self) -> Option<Self> {
+        let mut aggregated = self.0;
+
+        for (key, value) in other.0 {
+            let entry = aggregated.entry(key).or_default();
+            *entry = entry.checked_add(value)?;
+        }
+
+        aggregated.retain(|_, &mut value| value != 0);
+
+        Some(Self(aggregated))
+    }
+
+    /// Every amount negated, or `None` when one of them is i128::MIN.
+    pub fn checked_neg(self) -> Option<Self> {
+        let mut negated = self.0;
+
+        for (_, value) in negated.iter_mut() {
+            *value = value.checked_neg()?;
+        }
+
+        Some(Self(negated))
+    }
+
     pub fn classes(&self) -> HashSet<AssetClass> {
         self.iter().map(|(class, _)| class.clone()).collect()
     }
